@@ -127,6 +127,11 @@ class Report:
             self.samples.append(obj)
 
     # -- verdict ----------------------------------------------------------
+    def new_failures(self) -> list[dict]:
+        """failures that no known-findings entry lists"""
+        known = [k for k in load_known() if k["property"] == self.pid and k["status"] == "known"]
+        return [f for f in self.failures if not any(k["rule"] == f["rule"] and k["key"] == f["key"] for k in known)]
+
     def finish(self, replay_filter: dict | None = None) -> int:
         known = [
             k for k in load_known() if k["property"] == self.pid and k["status"] == "known"
